@@ -468,7 +468,7 @@ def State.resolveI (st : State) : IDecl → Option (String × Option String × S
        none, .earliness l))
   | .nbTardy ts => (st.tasksOrAll ts).map (fun l =>
       ("IndicatorNumberOfTardyTasks", none,
-       (match ts with | none => "Total tardiness" | some ns => "NumberOfTardyTasks(" ++ joinNames ns ++ ")"), none, .nbTardy l))
+       (match ts with | none => "Number of tardy tasks" | some ns => "NumberOfTardyTasks(" ++ joinNames ns ++ ")"), none, .nbTardy l))
   | .maxLateness ts => (st.tasksOrAll ts).map (fun l =>
       ("IndicatorMaximumLateness", none,
        (match ts with | none => "MaximumLateness" | some ns => "MaximumLateness(" ++ joinNames ns ++ ")"), none, .maxLateness l))
